@@ -10,11 +10,12 @@ namespace CueVerif.Bridge.C17
 open CueVerif
 
 theorem pin_modload_tidy : Gen.C17.pin_modload_tidy = "c2f586c4d7605d7e" := by decide
-theorem pin_modload_loader_tidyOnce : Gen.C17.pin_modload_loader_tidyOnce = "11097f5178f49379" := by decide
+theorem pin_modload_loader_tidyOnce : Gen.C17.pin_modload_loader_tidyOnce = "f7032ae09963f788" := by decide
 theorem pin_modload_loader_resolveDependencies : Gen.C17.pin_modload_loader_resolveDependencies = "5de029eb8d8c8b62" := by decide
 theorem pin_modload_loader_resolveMissingImports : Gen.C17.pin_modload_loader_resolveMissingImports = "963c3040770894b0" := by decide
 theorem pin_modload_loader_updateRoots : Gen.C17.pin_modload_loader_updateRoots = "08bdfd5e711c382d" := by decide
 theorem pin_modload_loader_tidyRoots : Gen.C17.pin_modload_loader_tidyRoots = "c06070f3fb1e6038" := by decide
+theorem pin_modload_keepImpliedDefaults : Gen.C17.pin_modload_keepImpliedDefaults = "c8881a8d433ced9e" := by decide
 theorem pin_modload_modfileFromRequirements : Gen.C17.pin_modload_modfileFromRequirements = "5d5423764d898ba3" := by decide
 theorem pin_modload_equalRequirements : Gen.C17.pin_modload_equalRequirements = "93c7b7eea67cc542" := by decide
 theorem pin_modload_mergeRequirements : Gen.C17.pin_modload_mergeRequirements = "b3d3e5c28d9dc855" := by decide
@@ -49,7 +50,7 @@ theorem pin_modimports_AllImports : Gen.C17.pin_modimports_AllImports = "a4cbd1d
 theorem pin_modimports_PackageFiles : Gen.C17.pin_modimports_PackageFiles = "ac4937d807ee9499" := by decide
 theorem pin_modimports_AllModuleFiles : Gen.C17.pin_modimports_AllModuleFiles = "6c45cbff217c4d7f" := by decide
 theorem pin_modimports_yieldAllModFiles : Gen.C17.pin_modimports_yieldAllModFiles = "16a1f7e93e0dcd75" := by decide
-theorem pin_modfiledata_File_init : Gen.C17.pin_modfiledata_File_init = "639e78f9a836b26c" := by decide
+theorem pin_modfiledata_File_init : Gen.C17.pin_modfiledata_File_init = "db0970ff56007b86" := by decide
 theorem pin_modfiledata_File_QualifiedModule : Gen.C17.pin_modfiledata_File_QualifiedModule = "b0a212c52bf34634" := by decide
 theorem pin_modfiledata_File_DepVersions : Gen.C17.pin_modfiledata_File_DepVersions = "0f63c0df6d2bfc04" := by decide
 theorem pin_modfiledata_File_DefaultMajorVersions : Gen.C17.pin_modfiledata_File_DefaultMajorVersions = "d718c3ac131e5b06" := by decide
